@@ -104,6 +104,11 @@ def body(chk):
     for j, rpc in enumerate((4, 8, 1024)):
         cases.append(dict(level="1.1", images=[("HH", "F1", 3, 2), ("HH", "F2", 9, 2), ("HH", "F3", 5, 2), ("HH", "F4", 14, 2)], rpc=rpc,
                           seed=chk.seed + 940 + j, fss=["vtrace"], sels=[("all",), ("slice", 0, 8, 1), ("slice", 1, 5, 2)], origin="scansar-geometries", special=False))
+    # request sizes given as BYTE sizes ("600 B", "40 kB", "auto"): refused by an implementation that only takes line counts -- but one that
+    # takes them has fixed a number of lines per group (it advertises it), and opening / loading keep to THAT number
+    for j, (n, p, size) in enumerate(((14, 5, "600 B"), (14, 5, "70 B"), (30, 2000, "40 kB"), (30, 2000, "42 kB"), (12, 3, "auto"), (30, 2000, "1 MiB"))):
+        cases.append(dict(level="1.5", images=[("HH", None, n, p)], rpc=size, seed=chk.seed + 930 + j, fss=["vtrace"], sels=[("all",), ("slice", 0, 8, 1), ("int", 3)],
+                          origin="byte-size-request", special=False, may_reject=True))
     cases.append(dict(level="1.1", images=[("HH", "F1", 5, 2), ("HH", "F2", 5, 2)], rpc=None, seed=chk.seed + 950, fss=["vtrace"],
                       sels=[("all",)], origin="default-options", special=False))
     # pointwise (vectorised) selections: several points on lines of the SAME group are still one request for that group; and trees
@@ -152,6 +157,8 @@ def body(chk):
     nloads = 0
     for res in results:
         c = res["case"]
+        if c.get("may_reject"):   # spellings of the request size that an implementation may refuse: nothing to judge then
+            res["runs"] = [run for run in res["runs"] if run["open"] == "ok"]
         for run in res["runs"]:
             if run["open"] != "ok":
                 raise checklib.Machinery(f"well-formed product did not open in the C11 driver: {run['open']} {run.get('open_msg')}")
